@@ -116,7 +116,7 @@ OK20(e) ==
 \* that difference in width (at most 3 bytes).  The class: a lenient front-end that consumed more than the frame it
 \* was given declares.
 LenientOverrun(e) ==
-    /\ e.front \in {"block", "async"}
+    /\ e.front \in {"block", "async", "async3"}
     /\ LET d == DecVarIntAt(e.bytes, 2) IN
        /\ d.st = "ok" /\ 1 + d.w + d.val < e.consumed
        /\ Len(e.reenc.bytes) - e.consumed = DecVarIntAt(e.reenc.bytes, 2).w - d.w
